@@ -53,6 +53,11 @@ chk("C12", "fault_enumeration", "DESIGN.md 5/C12",
     "Cancellation is observed only through ctx.Done() (contextx.IsCancelled), so a counting context is an exact seam. Halt()/stop/timer paths that reach the search through goroutines are covered under C15/C16/C04 (S-A).",
     "deterministic simulation: enumeration of every cancellation point (counting context), recording table, twin comparison")
 
+chk("C04", "exploration", "DESIGN.md 5/C04",
+    "The real UCI driver + engine + iterative launcher + search of all four wirings run inside a synctest bubble against a polite simulated GUI; the controller decides from the tape when commands arrive, how far each search goroutine gets (gate credits), when hooked tasks (loop, forwarder, timers, Halt callers) proceed, when simulated time passes and when the output consumer stalls. An obligation tracker demands exactly one bestmove per go, legal in the position last set up (independent rules model), 0000 only without legal moves; liveness is decided in a settle phase after the last stimulus.",
+    "Legality by verif/sim/rules. Scheduling freedom exists at the gate and the simhook points (DESIGN.md 2.3); the four main() wirings are repeated in the harness. Whether 'go infinite' may be answered before 'stop' (book move, depth limit) is left open by the sentence and only counted.",
+    "deterministic simulation: synctest bubble, seeded scheduler over gate/hook points, simulated clock, obligation tracker")
+
 def main():
     props = [json.loads(l) for l in open('/verif/properties.jsonl')]
     ids = [p['id'] for p in props]
